@@ -20,7 +20,8 @@ import (
 
 type knownFinding struct {
 	Prop  string
-	Match string // substring matched against "<func> :: <obligation name> @ <file>"
+	Match string   // substring matched against "<func> :: <obligation name> @ <file>"
+	Paths []string // every one must occur in the failing path's trace (the specific history that fails)
 	Text  string
 }
 
@@ -43,6 +44,9 @@ func loadKnownFindings(path string) []knownFinding {
 			}
 			if strings.HasPrefix(f, "obligation=") {
 				kf.Match = strings.Trim(strings.TrimPrefix(f, "obligation="), `"`)
+			}
+			if strings.HasPrefix(f, "path=") {
+				kf.Paths = append(kf.Paths, strings.Trim(strings.TrimPrefix(f, "path="), `"`))
 			}
 		}
 		out = append(out, kf)
@@ -174,6 +178,10 @@ func cmdCheck(args []string) int {
 	}
 	start := time.Now()
 	evPath := filepath.Join(*verif, "evidence", prop+".json")
+	if d := os.Getenv("GOVC_EVIDENCE_DIR"); d != "" {
+		// runs against deliberately changed trees (tools/run_seeds.sh) keep the committed evidence untouched
+		evPath = filepath.Join(d, prop+".json")
+	}
 	_ = os.MkdirAll(filepath.Dir(evPath), 0o755)
 	_ = os.Remove(evPath)
 
@@ -202,6 +210,9 @@ func cmdCheck(args []string) int {
 	outDir := filepath.Join(*verif, "out", prop)
 	_ = os.RemoveAll(outDir)
 	known := loadKnownFindings(filepath.Join(*verif, "known_findings.txt"))
+	if os.Getenv("GOVC_NO_KNOWN") != "" {
+		known = nil // debugging aid: show every failed obligation with all of its paths
+	}
 
 	type unitRes struct {
 		rep *FuncReport
@@ -245,8 +256,15 @@ func cmdCheck(args []string) int {
 	_ = os.RemoveAll(replayDir)
 	report := func(fn, name, kind, pos, status, file, raw, model string, trace []string) {
 		id := fn + " :: " + name + " @ " + pos
+		tr := " " + strings.Join(trace, " ") + " "
 		for _, kf := range known {
-			if kf.Prop == prop && kf.Match != "" && strings.Contains(id, kf.Match) {
+			onPath := true
+			for _, p := range kf.Paths {
+				if !strings.Contains(tr, " "+p+" ") {
+					onPath = false
+				}
+			}
+			if kf.Prop == prop && kf.Match != "" && strings.Contains(id, kf.Match) && onPath {
 				knownObl++
 				if !knownHits[kf.Text] {
 					knownHits[kf.Text] = true
